@@ -79,7 +79,7 @@ func recC12(c *ctx) {
 			msg := r.Bytes(r.Intn(80))
 			tr, tev := mkTranscript(kind, msg)
 			ent := r.Bytes(32)
-			sig, err := kp.Sign(bytes.NewReader(ent), tr)
+			sig, err := kp.Sign(r.Entropy(ent), tr)
 			if err != nil {
 				emit(vt.Ev{"op": "srfail", "what": "sign", "err": err.Error()})
 				continue
@@ -132,9 +132,9 @@ func recC12(c *ctx) {
 	// ---- generators: GenerateMiniSecretKey = the 32 bytes read; GenerateSecretKey = wide-reduced 64 bytes || 32 nonce bytes
 	for i := 0; i < 2; i++ {
 		ent := r.Bytes(96)
-		m, err1 := sr25519.GenerateMiniSecretKey(bytes.NewReader(ent))
-		s, err2 := sr25519.GenerateSecretKey(bytes.NewReader(ent))
-		k, err3 := sr25519.GenerateKeyPair(bytes.NewReader(ent))
+		m, err1 := sr25519.GenerateMiniSecretKey(r.Entropy(ent))
+		s, err2 := sr25519.GenerateSecretKey(r.Entropy(ent))
+		k, err3 := sr25519.GenerateKeyPair(r.Entropy(ent))
 		if err1 != nil || err2 != nil || err3 != nil {
 			emit(vt.Ev{"op": "srfail", "what": "generate"})
 			continue
